@@ -404,6 +404,8 @@ type scriptBody struct {
 	withLast bool
 
 	tailServed bool
+	closed     atomic.Bool // Close was called: like a net/http body, every later Read fails with "read on closed body"
+	cancelled  bool        // ending (2 2): the context was ended together with the last bytes handed out
 }
 
 func (s *scriptBody) end() error {
@@ -416,6 +418,19 @@ func (s *scriptBody) end() error {
 	case 1:
 		return scriptedErr(s.ending.At(1).Num())
 	default:
+		if s.ending.At(1).Num() == 2 && s.cancelled {
+			// the context ended while the Connection was working on bytes it already had, not inside a Read.  A transport's
+			// body answers the next Read with the context's error - unless somebody closed the body meanwhile, then with
+			// its read-after-close error (a few milliseconds for such a Close to arrive; correct code never makes one
+			// before its read loop is over)
+			for i := 0; i < 50 && !s.closed.Load(); i++ {
+				time.Sleep(100 * time.Microsecond)
+			}
+			if s.closed.Load() {
+				return http.ErrBodyReadAfterClose
+			}
+			return s.run.ctx.Err()
+		}
 		if s.ending.At(1).Num() == 1 {
 			// blocked in Read until somebody else cancels the request context
 			go func() { time.Sleep(20 * time.Microsecond); s.run.cancel() }()
@@ -432,6 +447,9 @@ func (s *scriptBody) end() error {
 var oversizedTail = strings.Repeat("x", 70000)
 
 func (s *scriptBody) Read(p []byte) (int, error) {
+	if s.closed.Load() {
+		return 0, http.ErrBodyReadAfterClose
+	}
 	if len(s.data) == 0 && s.ending.At(0).Num() == 3 && !s.tailServed {
 		s.tailServed = true
 		s.data = []byte(oversizedTail)
@@ -455,9 +473,13 @@ func (s *scriptBody) Read(p []byte) (int, error) {
 	if len(s.data) == 0 && s.withLast && (s.ending.At(0).Num() != 3 || s.tailServed) {
 		return n, s.end()
 	}
+	if len(s.data) == 0 && s.ending.At(0).Num() == 2 && s.ending.At(1).Num() == 2 {
+		s.cancelled = true
+		s.run.cancel() // the request context ends now; these last bytes are still handed out
+	}
 	return n, nil
 }
-func (s *scriptBody) Close() error { return nil }
+func (s *scriptBody) Close() error { s.closed.Store(true); return nil }
 
 func (r *connRun) RoundTrip(req *http.Request) (*http.Response, error) {
 	started := time.Now()
@@ -955,7 +977,7 @@ func connStream(r *rng.R, body string, c *Ctx) val.V {
 		body += "\n\n"
 		c.Count("ending:oversized-event")
 	default:
-		ending = val.L(val.N(2), val.N(uint64(r.Intn(2))))
+		ending = val.L(val.N(2), val.N(uint64(r.Intn(3)))) // 2: the context ends with the last bytes, outside any Read
 		c.Count("ending:cancel")
 	}
 	return val.L(val.N(3), val.S(body), ending, connChunks(r, len(body)), val.Bool(r.Chance(1, 4)), connStatus(r, c))
@@ -1237,7 +1259,7 @@ func connAgainStream(r *rng.R, c *Ctx) val.V {
 		ending = val.L(val.N(3))
 		body += "\n\n"
 	default:
-		ending = val.L(val.N(2), val.N(uint64(r.Intn(2)))) // cancellation inside Read: the run ends with this call
+		ending = val.L(val.N(2), val.N(uint64(r.Intn(3)))) // cancellation inside Read (0, 1) or with the last bytes (2): the run ends here
 	}
 	return val.L(val.N(3), val.S(body), ending, connChunks(r, len(body)), val.Bool(r.Chance(1, 4)), connStatus(r, c))
 }
@@ -1440,7 +1462,7 @@ func genConnect(c *Ctx) {
 	// clean end, a plain read error, cancellation, a read error that wraps io.EOF; then read errors that ARE a well-known
 	// sentinel (io.ErrUnexpectedEOF, the library's own ErrUnexpectedEOF, bufio.ErrTooLong, context.Canceled while the
 	// context lives, ...) or wrap / match one the library gives a meaning to (kinds 16, 17, 20-37)
-	endings := []val.V{val.L(val.N(0)), val.L(val.N(1), val.N(101)), val.L(val.N(2), val.N(0)), val.L(val.N(1), val.N(3101))}
+	endings := []val.V{val.L(val.N(0)), val.L(val.N(1), val.N(101)), val.L(val.N(2), val.N(0)), val.L(val.N(2), val.N(2)), val.L(val.N(1), val.N(3101))}
 	for k := uint64(16); k < connErrKinds; k++ {
 		if k != 18 && k != 19 {
 			endings = append(endings, val.L(val.N(1), val.N(1000*k+101)))
